@@ -97,6 +97,17 @@ def check(env, rep, tier):
                 okt = isinstance(tk, VecV) and isinstance(tk.tag, tuple) and tk.tag[0] == "copy" and tk.len == tok.len \
                     and isinstance(tk.tag[1], tuple) and tk.tag[1][0] == "vec" and tk.tag[1][1] == req.place.extend(("f", P["token"]))
                 rep.ob("C07.3", "token|%s" % tname, okt, "prepared response token is not a copy of the request token (%r)" % (tk,), site)
+                # the token length nibble of the reply header says how many token bytes follow the header on the wire
+                lsym = bitprov.sym_of(IntV(tk.len, (64, False))) if isinstance(tk, VecV) and tk.len.single() else None
+                okl = False
+                if tklbits and isinstance(tk, VecV):
+                    if tk.len.is_const():
+                        okl = all(b == ((tk.len.c >> i) & 1) for i, b in enumerate(tklbits))
+                    elif lsym is not None:
+                        okl = bitprov.field_of(tuple(tklbits), lsym) == {0: 0, 1: 1, 2: 2, 3: 3}
+                rep.ob("C07.3", "token-length|%s" % tname, okl,
+                       "the token length field of the prepared response header is not the length of the token it carries (bits %r): "
+                       "the token bytes would be parsed as options by the peer" % (tklbits,), site)
                 opts = pkt.fields[P["options"]]
                 rep.ob("C07.4", "no-options|%s" % tname, isinstance(opts, OpaqueV) and bool(opts.get("empty")),
                        "prepared response does not start with an empty option map (%r)" % (opts,), site)
@@ -154,78 +165,86 @@ def check(env, rep, tier):
         if af is None:
             rep.missing("C07.6", "CoapRequest::apply_from_error")
         else:
-            I = new_interp(prog)
-            I.no_join_bodies.add(af["id"])
-            gargs = (("param", "Endpoint"),)
-            st = State()
-            subst = prog.body_subst(af, gargs)
-            a0 = I.mat(st, prog.ty(af["locals"][1]["ty"], subst), "self")
-            err = I.mat(st, prog.ty(af["locals"][2]["ty"], subst), "error")
-            if isinstance(err, StructV):
-                err = StructV([I.mat(st, f.ty, "error.%d" % i) if isinstance(f, TopV) else f for i, f in enumerate(err.fields)])
-            R = {n: fidx(prog, "request::CoapRequest", n) for n in ("message", "response", "source")}
-            rty = prog.ty(af["locals"][1]["ty"], subst)[2]
-            I.ensure(st, a0.place, rty, "self")
-            respv = I.ensure(st, a0.place.extend(("f", R["response"])), I.field_types(rty)[R["response"]], "self.response")
-            # materialise the prepared reply's correlation fields so that any write to them is visible
-            if isinstance(respv, EnumV):
-                rp = a0.place.extend(("f", R["response"]), ("v", 1))
-                crt = I.field_types(rty)[R["response"]][2][0]
-                I.write(st, a0.place.extend(("f", R["response"])), EnumV(respv.path, {0: StructV([]), 1: StructV([I.mat(st, crt, "reply")])}, respv.ty))
-                mp = rp.extend(("f", 0), ("f", 0))
-                pkt_ty = I.field_types(crt)[0]
-                I.ensure(st, mp, pkt_ty, "reply.message")
-                I.ensure(st, mp.extend(("f", P["header"])), I.field_types(pkt_ty)[P["header"]], "reply.header")
-                corr0 = (I.ensure(st, mp.extend(("f", P["header"]), ("f", H["ver_type_tkl"])), ("int", 8, False), "reply.b0"),
-                         I.ensure(st, mp.extend(("f", P["header"]), ("f", H["message_id"])), ("int", 16, False), "reply.mid"),
-                         I.ensure(st, mp.extend(("f", P["token"])), I.field_types(pkt_ty)[P["token"]], "reply.token"))
-            else:
-                corr0 = None
-            before = I.read(st, a0.place)
-            cf_calls = []
-
-            def hook6(I_, s, call, cbody):
-                if call.path == "packet::Packet::set_content_format":
-                    cf_calls.append(call.args[1])
-                    s.ghost[("inj", "cf")] = True
-            I.call_hooks.append(hook6)
-            I, res = run(prog, af, args=[a0, err], st=st, I=I, gargs=gargs)
-            site6 = {"file": af["span"]["f"], "line": af["span"]["l"], "fn": af["path"]}
-            E = {n: fidx(prog, "error::HandlingError", n) for n in ("code", "message")}
             ok_true = ok_false = True
             n_true = 0
-            for s, rv in res:
-                rv = I.as_int(s, rv, (1, False), "ret")
-                after = I.read(s, a0.place)
-                resp = after.fields[R["response"]]
-                if rv.aff == Aff.const(1):
-                    n_true += 1
-                    code = err.fields[E["code"]] if isinstance(err, StructV) else None
-                    good = isinstance(resp, EnumV) and list(resp.variants) == [1]
-                    if good:
-                        pkt = resp.variants[1].fields[0].fields[0]
-                        h = pkt.fields[P["header"]]
-                        c = h.fields[H["code"]]
-                        good = isinstance(c, EnumV) and list(c.variants) == [mcv.index("Response")]
-                        pl = pkt.fields[P["payload"]]
-                        em = err.fields[E["message"]]
-                        good = good and isinstance(pl, VecV) and isinstance(em, VecV) and pl.len == em.len
-                        good = good and bool(s.ghost.get(("inj", "cf")))
-                        # correlation fields of the reply are left alone
-                        good = good and corr0 is not None and h.fields[H["ver_type_tkl"]] == corr0[0] \
-                            and h.fields[H["message_id"]] == corr0[1] and pkt.fields[P["token"]] == corr0[2]
-                        # message (request) untouched, correlation fields untouched
-                        good = good and after.fields[R["message"]] == before.fields[R["message"]]
-                    if not good:
-                        ok_true = False
-                elif rv.aff == Aff.const(0):
-                    if after != before and not (isinstance(resp, EnumV)):
-                        ok_false = False
-                    # nothing written: compare packet payload/code if a response exists
-                    if s.ghost.get(("inj", "cf")):
-                        ok_false = False
+            cf_calls = []
+            for entry_variant in (1, 0):
+                I = new_interp(prog)
+                I.no_join_bodies.add(af["id"])
+                gargs = (("param", "Endpoint"),)
+                st = State()
+                subst = prog.body_subst(af, gargs)
+                a0 = I.mat(st, prog.ty(af["locals"][1]["ty"], subst), "self")
+                err = I.mat(st, prog.ty(af["locals"][2]["ty"], subst), "error")
+                if isinstance(err, StructV):
+                    err = StructV([I.mat(st, f.ty, "error.%d" % i) if isinstance(f, TopV) else f for i, f in enumerate(err.fields)])
+                R = {n: fidx(prog, "request::CoapRequest", n) for n in ("message", "response", "source")}
+                rty = prog.ty(af["locals"][1]["ty"], subst)[2]
+                I.ensure(st, a0.place, rty, "self")
+                respv = I.ensure(st, a0.place.extend(("f", R["response"])), I.field_types(rty)[R["response"]], "self.response")
+                # materialise the prepared reply's correlation fields so that any write to them is visible
+                if isinstance(respv, EnumV):
+                    rp = a0.place.extend(("f", R["response"]), ("v", 1))
+                    crt = I.field_types(rty)[R["response"]][2][0]
+                    I.write(st, a0.place.extend(("f", R["response"])), EnumV(respv.path, {0: StructV([]), 1: StructV([I.mat(st, crt, "reply")])}, respv.ty))
+                    mp = rp.extend(("f", 0), ("f", 0))
+                    pkt_ty = I.field_types(crt)[0]
+                    I.ensure(st, mp, pkt_ty, "reply.message")
+                    I.ensure(st, mp.extend(("f", P["header"])), I.field_types(pkt_ty)[P["header"]], "reply.header")
+                    corr0 = (I.ensure(st, mp.extend(("f", P["header"]), ("f", H["ver_type_tkl"])), ("int", 8, False), "reply.b0"),
+                             I.ensure(st, mp.extend(("f", P["header"]), ("f", H["message_id"])), ("int", 16, False), "reply.mid"),
+                             I.ensure(st, mp.extend(("f", P["token"])), I.field_types(pkt_ty)[P["token"]], "reply.token"))
                 else:
-                    ok_true = ok_false = False
+                    corr0 = None
+                # one run per shape of the entry state: a reply is prepared / no reply
+                cur = I.read(st, a0.place.extend(("f", R["response"])))
+                if isinstance(cur, EnumV):
+                    I.write(st, a0.place.extend(("f", R["response"])), EnumV(cur.path, {entry_variant: cur.variants.get(entry_variant) or StructV([])}, cur.ty))
+                before = I.read(st, a0.place)
+
+                def hook6(I_, s, call, cbody):
+                    if call.path == "packet::Packet::set_content_format":
+                        cf_calls.append(call.args[1])
+                        s.ghost[("inj", "cf")] = True
+                I.call_hooks.append(hook6)
+                I, res = run(prog, af, args=[a0, err], st=st, I=I, gargs=gargs)
+                site6 = {"file": af["span"]["f"], "line": af["span"]["l"], "fn": af["path"]}
+                E = {n: fidx(prog, "error::HandlingError", n) for n in ("code", "message")}
+                for s, rv in res:
+                    rv = I.as_int(s, rv, (1, False), "ret")
+                    after = I.read(s, a0.place)
+                    resp = after.fields[R["response"]]
+                    if rv.aff == Aff.const(1):
+                        n_true += 1
+                        if entry_variant == 0:
+                            ok_true = False     # success reported although there is no reply to apply the error to
+                        code = err.fields[E["code"]] if isinstance(err, StructV) else None
+                        good = isinstance(resp, EnumV) and list(resp.variants) == [1]
+                        if good:
+                            pkt = resp.variants[1].fields[0].fields[0]
+                            h = pkt.fields[P["header"]]
+                            c = h.fields[H["code"]]
+                            good = isinstance(c, EnumV) and list(c.variants) == [mcv.index("Response")]
+                            pl = pkt.fields[P["payload"]]
+                            em = err.fields[E["message"]]
+                            good = good and isinstance(pl, VecV) and isinstance(em, VecV) and pl.len == em.len
+                            good = good and bool(s.ghost.get(("inj", "cf")))
+                            # correlation fields of the reply are left alone
+                            good = good and corr0 is not None and h.fields[H["ver_type_tkl"]] == corr0[0] \
+                                and h.fields[H["message_id"]] == corr0[1] and pkt.fields[P["token"]] == corr0[2]
+                            # message (request) untouched, correlation fields untouched
+                            good = good and after.fields[R["message"]] == before.fields[R["message"]]
+                        if not good:
+                            ok_true = False
+                    elif rv.aff == Aff.const(0):
+                        # reporting failure leaves the request and the prepared reply exactly as they were
+                        if after != before:
+                            ok_false = False
+                        # nothing written: compare packet payload/code if a response exists
+                        if s.ghost.get(("inj", "cf")):
+                            ok_false = False
+                    else:
+                        ok_true = ok_false = False
             rep.ob("C07.6", "true-path", ok_true and n_true >= 1,
                    "apply_from_error: a path returning true does not (only) set code := Response(error.code), Content-Format and payload := error.message on an existing response", site6)
             rep.ob("C07.6", "false-path", ok_false, "apply_from_error: a path returning false modifies the reply", site6)
